@@ -4,3 +4,6 @@ import "testing"
 
 // TestReplay re-runs the single replay file named by VERIF_REPLAY.
 func TestReplay(t *testing.T) { replayOne(t) }
+
+// FuzzNone only warms the instrumented build cache (see ./check --setup).
+func FuzzNone(f *testing.F) { fuzzNone(f) }
